@@ -580,8 +580,11 @@ func genC07(r *Rng) *Scenario {
 			}
 			p.Type, p.ID = TSubAck, v.id
 			k := v.nsub + int(r.pickI(-1, 1, 2))
+			if v.nsub > 1 && r.chance(0.3) {
+				k = 1
+			}
 			for j := 0; j < k; j++ {
-				p.Codes = append(p.Codes, byte(r.IntN(3)))
+				p.Codes = append(p.Codes, []byte{0, 1, 2, 0x80}[r.IntN(4)])
 			}
 		}
 		if p.Type == TSubAck && p.Codes == nil {
@@ -716,7 +719,8 @@ func applyCause(sc *Scenario, cause string, t int64, target int, r *Rng) {
 		raws := []string{hx(0xf0, 0), hx(0x36, 3, 0, 1, 'a'), hx(0x41, 2, 0, 1), hx(0x40, 0x80, 0x80, 0x80, 0x80, 0x01), hx(0x90, 0), hx(0x20, 1, 0)}
 		sc.Script = append(sc.Script, Out{Conn: 1, AtUs: t - sc.Cfg.LatB2CUs, Kind: "raw", RawHex: raws[r.IntN(len(raws))], Class: "malformed"})
 	case "refused":
-		sc.Faults = append(sc.Faults, Fault{Kind: "connackRefuse", Conn: 1, Code: byte(r.between(1, 5))})
+		// the five codes MQTT 3.1.1 defines, reserved ones, and MQTT 5 reason codes
+		sc.Faults = append(sc.Faults, Fault{Kind: "connackRefuse", Conn: 1, Code: []byte{1, 2, 3, 4, 5, 6, 0x80, 0x84, 0xFF}[r.IntN(9)]})
 	case "disconnect":
 		// another goroutine disconnects while the call is blocked
 		sc.Ops = append(sc.Ops, Op{AtUs: t, Actor: 99, Kind: "disconnect", Cli: 0})
